@@ -125,6 +125,12 @@ def _const_strs(ctx, mod, e):
         try:
             v = ctx.folder(mod.rel).get(e.id)
         except AnalysisError:
+            # not folded (the module does something the folder does not follow before it): a single literal definition
+            vals = [x for x in mod.globals[e.id] or [] if x is not None]
+            if len(vals) == 1 and not isinstance(vals[0], ast.Name):
+                if isinstance(vals[0], ast.Call) and norm(vals[0].func) in ('frozenset', 'set', 'tuple') and len(vals[0].args) == 1:
+                    return _const_strs(ctx, mod, vals[0].args[0])
+                return _const_strs(ctx, mod, vals[0])
             return None
         if isinstance(v, (tuple, list, set, frozenset)) and all(isinstance(x, str) for x in v):
             return set(v)
@@ -392,6 +398,48 @@ def _rule_context(ctx, f, recv, kinds):
     types, values = registrations(ctx, cls)
     if types and not values:
         return {k for k in kinds if k in types}
+    if values and not types:
+        # fed by the value dispatch of Normalizer.visit_leaf only: the leaf kinds that dispatch lets through
+        return _through_value_dispatch(ctx, kinds)
+    return kinds
+
+
+_dispatch = {}
+
+
+def _value_dispatch_tests(ctx):
+    """(Narrow, [(test, polarity)]) guarding the loop over the value-registered rules in Normalizer.visit_leaf."""
+    if id(ctx) in _dispatch:
+        return _dispatch[id(ctx)]
+    from .par import only_via
+    model = TokenValueModel(ctx)
+    vl = ctx.view(ctx.prog.func('parso/normalizer.py', 'Normalizer.visit_leaf'))     # the dispatch may sit in a private helper
+    cfg = ctx.cfg(vl)
+    srcs = {'_rule_value_instances'}
+    for n in walk_own(vl.node):
+        if isinstance(n, ast.Assign) and '_rule_value_instances' in norm(n.value):
+            srcs |= {t.id for t in n.targets if isinstance(t, ast.Name)}
+    loop = [n for n in cfg.nodes if n.kind == 'iter' and any(
+        isinstance(x, (ast.Name, ast.Attribute)) and (getattr(x, 'id', None) in srcs or getattr(x, 'attr', None) in srcs)
+        for x in ast.walk(n.ast))]
+    if not loop:
+        raise AnalysisError('anchor vanished: value-rule dispatch in Normalizer.visit_leaf')
+    leafp = vl.params()[1]
+    nar = Narrow(ctx, vl, leafp, model)
+    tests = []
+    for n in cfg.nodes:
+        if n.kind == 'test' and (leafp + '.type') in norm(n.ast):
+            for lab in ('T', 'F'):
+                if only_via(cfg, loop[0], lambda e, n=n: e is n.ast, lab):
+                    tests.append((n.ast, lab == 'T'))
+    _dispatch[id(ctx)] = (nar, tests)
+    return _dispatch[id(ctx)]
+
+
+def _through_value_dispatch(ctx, kinds):
+    nar, tests = _value_dispatch_tests(ctx)
+    for t, pos in tests:
+        kinds = nar.apply(kinds, t, pos)
     return kinds
 
 
@@ -443,25 +491,7 @@ def norm_8(ctx, rep):
     model = TokenValueModel(ctx)
     prog = ctx.prog
     # does the dispatch itself filter on the leaf type?
-    vl = prog.func('parso/normalizer.py', 'Normalizer.visit_leaf')
-    cfg = ctx.cfg(vl)
-    srcs = {'_rule_value_instances'}
-    for n in walk_own(vl.node):
-        if isinstance(n, ast.Assign) and '_rule_value_instances' in norm(n.value):
-            srcs |= {t.id for t in n.targets if isinstance(t, ast.Name)}
-    loop = [n for n in cfg.nodes if n.kind == 'iter' and any(
-        isinstance(x, (ast.Name, ast.Attribute)) and (getattr(x, 'id', None) in srcs or getattr(x, 'attr', None) in srcs)
-        for x in ast.walk(n.ast))]
-    if not loop:
-        raise AnalysisError('anchor vanished: value-rule dispatch in Normalizer.visit_leaf')
-    leafp = vl.params()[1]
-    nar = Narrow(ctx, vl, leafp, model)
-    disp_tests = []
-    for n in cfg.nodes:
-        if n.kind == 'test' and (leafp + '.type') in norm(n.ast):
-            for lab in ('T', 'F'):
-                if only_via(cfg, loop[0], lambda e, n=n: e is n.ast, lab):
-                    disp_tests.append((n.ast, lab == 'T'))
+    nar, disp_tests = _value_dispatch_tests(ctx)
     n_rules = 0
     for cls in sorted(prog.classes.values(), key=lambda c: c.qual):
         types, values = registrations(ctx, cls)
